@@ -586,6 +586,10 @@ function describeObjectMember(
   };
 }
 
+function describePropertyKey(key: string): string {
+  return /^[A-Za-z_$][A-Za-z0-9_$]*$/.test(key) ? key : JSON.stringify(key);
+}
+
 function describeIndexObjectMember(
   ctx: DescribeContext,
   key: Runtype,
@@ -1980,7 +1984,7 @@ export class ObjectRuntype extends BaseRuntype {
     const sortedKeys = Object.keys(this.properties).sort();
     const props = sortedKeys.map((k) => {
       const it = this.properties[k];
-      return describeObjectMember(ctx, k, it);
+      return describeObjectMember(ctx, describePropertyKey(k), it);
     });
 
     const indexProps = this.indexedPropertiesParser.map(({ key, value }) =>
